@@ -344,11 +344,11 @@ func (g *gen) opEnumAlias() {
 			}
 			g.emitPair("enum-alias-delete-number", v.name, st.file, nested+"#1", depth, old, n, ex...)
 		}
-		// one of two aliases removed (the number survives): no rule is documented to fire; the pair is
-		// kept for the category-hierarchy check of C04
+		// one of two aliases removed (the number survives): every previous name of a number must remain
 		n0, e0 := mk()
 		e0.DeleteValue(p + "_MIN")
-		g.emitPair("enum-alias-delete-one-name", "number-survives", st.file, nested+"."+p+"_MIN", depth, old, n0)
+		g.emitPair("enum-alias-delete-one-name", "number-survives", st.file, nested+"."+p+"_MIN", depth, old, n0,
+			Expect{Rule: "ENUM_VALUE_SAME_NAME", Names: []string{"1", name, p + "_MIN"}, File: st.file, LocKey: KeyEnumValue(nested, p+"_LOW")})
 		// rename one of the two aliases: the new name set is not contained in the old one
 		n, e := mk()
 		e.Value(p + "_MIN").Name = p + "_LEAST"
